@@ -95,7 +95,7 @@ def _gen(g):
     return {"kind": "conc", "config": g.choice(["S", "S", "E"]) if ttl else g.choice(["S", "S", "E", "U"]),
             "maxsize": g.choice([None, 0, 1, 1, 2, 2, 3]), "typed": typed, "ttl": ttl, "ac": g.chance(30),
             "outcomes": [g.weighted([(75, "ok"), (25, "boom")]) for _ in range(g.int(1, 6))],
-            "callers": callers, "ctl": ctl, "nest": g.choice([0, 0, 1])}
+            "callers": callers, "ctl": ctl, "nest": g.choice([0, 0, 1]), "residue": g.chance(12)}
 
 
 _strategy = composite(_gen)
@@ -159,6 +159,7 @@ def run_conc(case, out, stats):
 
     async def body(sim):
         sim.nest = case.get("nest", 0)
+        sim.residue = bool(case.get("residue"))
         loop = sim.loop
         import os
         TR = os.environ.get("VF_TRACE")
